@@ -12,8 +12,14 @@ ERR = {'nf': 1, 'mal': 2, 'other': 3}
 
 
 class Obj:
+    """A media object; every other one is falsy (like {} / [] / 0 / ''), which must make no
+    difference anywhere: the code is to test `is None` / `is _UNSET`, never truthiness."""
+
     def __init__(self, k):
         self.k = k
+
+    def __bool__(self):
+        return self.k % 2 == 1
 
 
 def run_coro(coro):
